@@ -100,6 +100,10 @@ def judge_program(p, T):
     if sets is None:
         out["dropped"] = reached
         return out
+    if any(x[0] == "c" and isinstance(x[2], int) and abs(x[2]) >= 1 << 62 for vs in sets.values() for x in vs):
+        # lian refuses to fold constants beyond config.MAX_FOLDED_CONSTANT_BITS; exactness is tested on small constants
+        out["dropped"] = "constant beyond 62 bits"
+        return out
     unit = T.unit_by_file.get(f"{p.uid}.py")
     eid = T.method_id(unit, p.entry) if unit is not None else None
     sp = T.space_for_entry(eid, unit) if eid is not None else None
